@@ -31,11 +31,11 @@ fn write4<T: EncodingContext>(ctx: &mut T, s: &ArrayVec<u8, 4>) {
     }
 }
 
-fn handle_end<T: EncodingContext>(
-    ctx: &mut T,
-    mut symbols: ArrayVec<u8, 4>,
-) -> Result<(), DataEncodingError> {
-    // check case "encoding with <= 2 ASCII, no UNLATCH"
+/// Check the case "encoding the rest with <= 2 ASCII codewords, no UNLATCH".
+///
+/// Returns `true` if the rule applies, the characters in `symbols` are then
+/// handed back and the rest of the data is encoded as ASCII.
+fn ascii_end_of_data<T: EncodingContext>(ctx: &mut T, symbols: &ArrayVec<u8, 4>) -> bool {
     let rest_chars = symbols.len() + ctx.characters_left();
     if rest_chars <= 4 {
         // The standard allows ASCII encoding without UNLATCH if there
@@ -52,11 +52,21 @@ fn handle_end<T: EncodingContext>(
                 Some(space) if space <= 2 && ascii_size <= space => {
                     ctx.backup(symbols.len());
                     ctx.set_ascii_until_end();
-                    return Ok(());
+                    return true;
                 }
                 _ => (),
             }
         }
+    }
+    false
+}
+
+fn handle_end<T: EncodingContext>(
+    ctx: &mut T,
+    mut symbols: ArrayVec<u8, 4>,
+) -> Result<(), DataEncodingError> {
+    if ascii_end_of_data(ctx, &symbols) {
+        return Ok(());
     }
     if symbols.is_empty() {
         if !ctx.has_more_characters() {
@@ -97,7 +107,16 @@ fn handle_end<T: EncodingContext>(
 
 pub(super) fn encode<T: EncodingContext>(ctx: &mut T) -> Result<(), DataEncodingError> {
     let mut symbols = ArrayVec::<u8, 4>::new();
-    while let Some(ch) = ctx.eat() {
+    loop {
+        // The planner counts on the ASCII end of data rule before every group
+        // of four, also if the remaining characters would fill a whole group.
+        if symbols.is_empty() && ctx.has_more_characters() && ascii_end_of_data(ctx, &symbols) {
+            return Ok(());
+        }
+        let ch = match ctx.eat() {
+            Some(ch) => ch,
+            None => break,
+        };
         symbols.push(ch);
 
         if symbols.len() == 4 {
